@@ -179,6 +179,27 @@ def check(ctx):
         ctx.require(len(helper) == 1, "%s does not delegate to its helper" % w.fq)
         ctx.check(dotted(helper[0].args[0]) == "experiments", "C20.same-keys", w, "experiments arg",
                   "helper receives the caller's experiments", "helper does not receive the caller's experiments")
-    ctx.min_instances("C20.same-keys", 9)
-    ctx.min_instances("C20.hidden", 6)
+    # ---------------------------------------------------------------- (4) selection by key only
+    # The dict order of an experiment is the library's internal column order; columns must be picked by the keys that label them.
+    for ref in ("main:_experiments_to_tuples", "main:_experiments_to_dicts", "main:_experiments_to_csv"):
+        f = ctx.fn(ref)
+        exp_vars = {st.target.id for st in statements(f.node) if isinstance(st, ast.For) and isinstance(st.target, ast.Name) and "experiments" in names_in(st.iter)}
+        for st in statements(f.node):
+            if isinstance(st, ast.For) and isinstance(st.target, ast.Tuple) and "experiments" in names_in(st.iter):
+                exp_vars |= {n.id for n in st.target.elts if isinstance(n, ast.Name)}
+        bad = []
+        for n in ast.walk(f.node):
+            if isinstance(n, ast.Call) and isinstance(n.func, ast.Attribute) and n.func.attr in ("values", "items", "keys", "popitem") and dotted(n.func.value) in exp_vars:
+                bad.append(n)
+            if isinstance(n, (ast.For, ast.comprehension)) and dotted(n.iter) in exp_vars:
+                bad.append(n.iter)
+        ctx.check(not bad, "C20.same-keys", f, "%s selects by key" % f.qual, "columns are fetched by key only; the experiment's own dict order is never used",
+                  "%s reads an experiment through `%s`: the column order then follows the library's internal dict order, not the labelled key sequence" % (
+                      f.qual, ast.unparse(bad[0]) if bad else ""), bad[0] if bad else None)
+    # ---------------------------------------------------------------- (5) what is merged after the hidden-name filter
+    from . import C22
+    C22.rule_output_keys(ctx, R="C20.hidden")
+    C22.rule_merge(ctx, R="C20.hidden")
+    ctx.min_instances("C20.same-keys", 12)
+    ctx.min_instances("C20.hidden", 12)
     ctx.min_instances("C20.partition", 4)
